@@ -6,6 +6,7 @@
 //                                (totals map as the real run uses it), before xsolution_save overwrites it.
 //                                If x1 == 2 the real convert_units is invoked once more on a private copy with the
 //                                engine's current state (density_iterations > 0 branch, kgw_kgs, solution volume).
+//   cu <hextoken> <alk> <compat> <hexdefault>   both check_units copies on one token
 //   run <hexinput>               run the input, print the selected-output table of user number 1 (cells as hex doubles)
 //   mix <hexinput> <n>           run the input, then (friend access) xsolution_zero(); add_mix(MIX n) and
 //                                cxxSolution(Rxn_solution_map, mix, 0): print every input solution and both results
@@ -79,6 +80,18 @@ public:
       e->input_error = ie;
     }
     ck->out.push_back("E");
+  }
+
+  // both copies of check_units on one token: Phreeqc::check_units (read.cpp) and CParser::check_units (Parser.cxx)
+  static void check_units(IPhreeqc* p, const std::string& tok, bool alk, bool compat, const std::string& dflt) {
+    Phreeqc* e = p->PhreeqcPtr;
+    std::string a = tok, b = tok;
+    int ie = e->input_error;
+    int r1 = e->check_units(a, alk, compat, dflt.c_str(), false);
+    CParser parser(e->phrq_io);
+    int r2 = parser.check_units(b, alk, compat, dflt, false);
+    e->input_error = ie;
+    std::cout << "CU " << (r1 == OK ? hex(a) : std::string("ERR")) << " " << (r2 == CParser::PARSER_OK ? hex(b) : std::string("ERR")) << "\n";
   }
 
   static void print_solution(const char* tag, int n, const cxxSolution& s) {
@@ -155,6 +168,13 @@ int main() {
     std::vector<std::string> w = hx::words(line);
     if (w.empty()) continue;
     if (w[0] == "db" && w.size() == 2) { db = hx::unhex(w[1]); std::cout << "DB\n"; continue; }
+    if (w[0] == "cu" && w.size() == 5) {
+      static IPhreeqc* pc = 0;
+      if (!pc) { pc = new IPhreeqc(); pc->LoadDatabase(db.c_str()); }
+      TestIPhreeqc::check_units(pc, hx::unhex(w[1]), w[2] == "1", w[3] == "1", hx::unhex(w[4]));
+      std::cout << "END\n";
+      continue;
+    }
     if ((w[0] == "conv" || w[0] == "run" || w[0] == "mix") && w.size() >= 2) {
       IPhreeqc* p = new IPhreeqc();
       Cookie ck; ck.p = p;
